@@ -44,7 +44,15 @@ def c05_worker(item):
     res = Res()
     cfg = wsgen.GenConfig(p_fail=0.75, max_patches=r.choice([2, 4, 6, 8]))
     cfg.p_second_fail = 0.3
-    ws = wsgen.generate(seed, cfg)
+    shape_x = r.random()
+    if shape_x < 0.015:
+        ws = wsgen.generate_long(seed, r.randint(101, 130), p_fail=0.5)      # more patches than the default backup window
+        res.count("long-series-(>100-patches)")
+    elif shape_x < 0.03:
+        ws = wsgen.generate_long(seed, r.randint(2, 6), big_lines=r.choice([65536, 70001, 131073]), p_fail=0.5)   # a file with > 65535 lines
+        res.count("big-file-(>65535-lines)")
+    else:
+        ws = wsgen.generate(seed, cfg)
     threads = r.choice([1, 1, 2, 4, 16])
     backup = r.choice(["always", "onfail", "never", None])
     verbosity = r.choice(["-q", "-q", None, "-v"])
@@ -191,10 +199,18 @@ def c08_worker(item):
     r = random.Random(seed * 104729 + 8)
     res = Res()
     cfg = wsgen.GenConfig(p_fail=0.4, max_patches=r.choice([3, 6, 10]), max_files=r.choice([1, 2, 4]), max_ops=r.choice([1, 3, 4]))
-    ws = wsgen.generate(seed, cfg)
+    long_series = r.random() < 0.03
+    if long_series:
+        # more patches than the default backup window (100)
+        ws = wsgen.generate_long(seed, r.randint(101, 135), nfiles=r.choice([1, 3]))
+        res.count("long-series-(>100-patches)")
+    else:
+        ws = wsgen.generate(seed, cfg)
     threads = r.choice([1, 4])
     mode = r.choice(["always", "always", "onfail", "never", None])
     count = r.choice(["all", 0, 1, 2, 5, 100, None])
+    if long_series:
+        count = r.choice([None, None, 100, "all", 5])
     first = 0
     limit = ws.fail_at if ws.fail_at is not None else len(ws.patches) - 1
     if limit > 0 and r.random() < 0.4:
